@@ -38,7 +38,8 @@ CHECK = {
         "lambda(start) == lambda(end) bitwise (alpha == 0 in MscStepToGeo's endpoint branch) is a "
         "measure-zero input and is skipped (tagged); MscStepFromGeo is only called with gstep <= geo",
     ],
-    "bounds": {
+    "bounds": {"gap_grids": "ranges [1e-4,10] and [1e-2,1e3] with N = 6 and 11 knots: grids whose computed last point lies one ulp below the stored back",
+               
         "quick": {"grids": 9, "knots": [2, 3, 4, 5, 8, 9, 17], "knot_ulps": 24, "bin_points": "8+3",
                   "xs_shapes": 6, "range_shapes": 6, "eloss_shapes": 4,
                   "linear_loss_limit": [0.0, 1e-300, 0.001, 0.01, 0.5], "physics_option_letters": 4,
